@@ -494,6 +494,28 @@ def ident_as_str(m, a, ci):
     return _ast_node(m, a[0]).text
 
 
+@reg('Int::get')
+def int_get(m, a, ci):
+    # the value the lexer's number parser assigns to the token text: an uninterpreted function of the node
+    return z3.BitVec('int_value_of_node_%d' % _ast_node(m, a[0]).nid, 64)
+
+
+@reg('Float::get', 'Numeric::get')
+def float_get(m, a, ci):
+    return Opaque('%s_value' % ci.type_name if hasattr(ci, 'type_name') else 'number_value', (_ast_node(m, a[0]).nid,))
+
+
+@reg('Bool::get')
+def bool_get(m, a, ci):
+    return z3.Bool('bool_value_of_node_%d' % _ast_node(m, a[0]).nid)
+
+
+@reg('Str::get')
+def str_get(m, a, ci):
+    from .models_std import OStr
+    return OStr(('str_value', _ast_node(m, a[0]).nid))
+
+
 TYPST_NEWLINES = (0x0A, 0x0B, 0x0C, 0x0D, 0x85, 0x2028, 0x2029)
 
 
